@@ -266,6 +266,27 @@ type c17Material struct {
 
 var c17NextID int
 
+// c17NeedleOf is the textual form under which the private part of a key entry
+// appears in serialised storage ("" if the entry holds no private part).
+func c17NeedleOf(ke KeyEntry, kt KeyType) string {
+	switch kt {
+	case KeyType_RSA2048, KeyType_RSA3072, KeyType_RSA4096:
+		if ke.RSAKey == nil || ke.RSAKey.D == nil {
+			return ""
+		}
+		return ke.RSAKey.D.String()
+	case KeyType_ECDSA_P256, KeyType_ECDSA_P384, KeyType_ECDSA_P521:
+		if ke.EC_D == nil {
+			return ""
+		}
+		return ke.EC_D.String()
+	}
+	if len(ke.Key) == 0 {
+		return ""
+	}
+	return c17b64(ke.Key)
+}
+
 func c17Capture(p *Policy, ver int) (*c17Material, error) {
 	ke, ok := p.Keys[strconv.Itoa(ver)]
 	if !ok {
@@ -1083,12 +1104,7 @@ func (h *c17Hist) checkStorage() {
 		case v >= lo && v < h.limbo:
 			h.r.Count("storage_limbo_after_failed_trim", 1)
 		case v >= lo && v <= h.m.Latest:
-			if !inArch && h.trimFault == "put_policy" && h.k.noCache {
-				// precise signature: cache-less, an earlier trim failed on the policy write after its archive write and was retried
-				h.violate("C17-trim-retry-after-policy-write-fault", fmt.Sprintf("a trim failed on the policy write after the trimmed archive had been written; the retried trim (policy reloaded from storage) trimmed the archive a second time: key material of version %d, between the minimum available version and the latest, is gone from the archive", v))
-			} else if !inArch && h.trimFault == "put_archive" && !h.k.noCache {
-				h.violate("C17-trim-retry-after-archive-write-fault", fmt.Sprintf("a trim failed because the archive write failed, the retried trim succeeded without re-basing the archive (in-memory ArchiveMinVersion is not rolled back when Persist fails), so later archive writes land on the wrong index: key material of version %d, between the minimum available version and the latest, is not in the archive", v))
-			} else if !inArch {
+			if !inArch {
 				h.violate("C17-archive-missing-version", fmt.Sprintf("stored archive does not contain the key material of version %d, which is between the minimum available version and the latest", v))
 			} else {
 				h.r.Count("archive_has_version", 1)
@@ -1097,10 +1113,7 @@ func (h *c17Hist) checkStorage() {
 				h.violate("C17-archive-missing-version", fmt.Sprintf("stored policy does not contain the key material of usable version %d", v))
 			}
 		case v < lo:
-			if (inArch || inPol) && h.trimFault == "put_archive" && !h.k.noCache {
-				// precise signature: cached policy, an earlier trim failed on the archive write and was retried
-				h.violate("C17-trim-retry-after-archive-write-fault", fmt.Sprintf("a trim failed because the archive write failed, the retried trim succeeded, but the archive was never trimmed: key material of trimmed version %d is still in storage and the archive is indexed from the wrong base (in-memory ArchiveMinVersion is not rolled back when Persist fails)", v))
-			} else if inArch || inPol {
+			if inArch || inPol {
 				h.violate("C17-trim-residue", fmt.Sprintf("key material of trimmed version %d is still in storage (archive=%v policy=%v)", v, inArch, inPol))
 			} else {
 				h.r.Count("trimmed_version_gone", 1)
@@ -1449,7 +1462,8 @@ func (h *c17Hist) faulted(kind string, k int, unknownAfterFail bool, do func() e
 	}
 	fs.arm(k)
 	err = do()
-	fired, what := fs.disarm()
+	var what string
+	fired, what = fs.disarm()
 	if !fired {
 		return err, false
 	}
@@ -1475,7 +1489,58 @@ func (h *c17Hist) faulted(kind string, k int, unknownAfterFail bool, do func() e
 	fs.arm(-1)
 	err = do()
 	h.r.Count("fault_retried:"+kind, 1)
+	if kind == "trim" && err == nil && !h.bad {
+		h.afterRetriedTrim(what)
+	}
+	if kind == "trim" && err != nil && !h.bad && what == "put_policy" && h.k.noCache {
+		// known signature (see afterRetriedTrim): the second trim slices the already trimmed archive again
+		h.violate("C17-trim-retry-after-policy-write-fault", fmt.Sprintf("cache-less: a trim failed on the policy write after the trimmed archive had been written; the retried trim slices the already trimmed archive again and fails: %v", err))
+		err = nil
+	}
 	return err, true
+}
+
+// afterRetriedTrim looks at the archive layout right after a trim whose first
+// attempt failed on an injected fault and whose retry succeeded: entry
+// [v - min_available_version] of the stored archive must be version v's key
+// for every v in [min_available, latest]. Two precise failure signatures of
+// the unchanged tree are classified on their own.
+func (h *c17Hist) afterRetriedTrim(what string) {
+	why := ""
+	if err := h.k.with(false, func(p *Policy) error {
+		arch, err := p.LoadArchive(h.k.ctx, h.k.raw)
+		if err != nil {
+			return err
+		}
+		lo := h.m.MinAvail
+		if lo < 1 {
+			lo = 1
+		}
+		for v := lo; v <= h.m.Latest && why == ""; v++ {
+			i := v - p.MinAvailableVersion
+			switch {
+			case i < 0 || i >= len(arch.Keys):
+				why = fmt.Sprintf("the archive has %d entries, version %d (index %d with min_available_version %d) is outside it", len(arch.Keys), v, i, p.MinAvailableVersion)
+			case c17NeedleOf(arch.Keys[i], p.Type) != h.m.Keys[v].Needle:
+				why = fmt.Sprintf("archive entry %d (= version %d with min_available_version %d) does not hold version %d's key", i, v, p.MinAvailableVersion, v)
+			}
+		}
+		return nil
+	}); err != nil {
+		why = err.Error()
+	}
+	if why == "" {
+		h.r.Count("archive_index_ok_after_retried_trim", 1)
+		return
+	}
+	switch {
+	case what == "put_archive" && !h.k.noCache:
+		h.violate("C17-trim-retry-after-archive-write-fault", "cached policy: a trim failed because the archive write failed; Persist does not roll the in-memory ArchiveMinVersion back, so the retried trim succeeded without trimming/re-basing the stored archive: "+why)
+	case what == "put_policy" && h.k.noCache:
+		h.violate("C17-trim-retry-after-policy-write-fault", "cache-less: a trim failed on the policy write after the trimmed archive had been written; the retried trim (policy reloaded from storage) trimmed the archive a second time: "+why)
+	default:
+		h.violate("C17-archive-index", fmt.Sprintf("after a trim that failed on %s and was retried: %s", what, why))
+	}
 }
 
 func (h *c17Hist) pickFault() int {
@@ -1503,8 +1568,14 @@ func (h *c17Hist) doRotate() error {
 
 // setField applies one field change the way the transit handlers do: set,
 // Persist, roll the field back when Persist refuses.
-func (h *c17Hist) setField(which string, v int) error {
+func (h *c17Hist) setField(which string, v int) (err error) {
+	defer func() {
+		if pv := recover(); pv != nil {
+			err = fmt.Errorf("PANIC: %v", pv)
+		}
+	}()
 	return h.k.with(true, func(p *Policy) error {
+
 		var f *int
 		switch which {
 		case "min_dec":
